@@ -396,4 +396,503 @@ def specCheck (obs : List Obs) : Except String Unit :=
     | some m => .error m
     | none => .ok ()
 
+/-! ## the model's observations
+
+The scenario of the harness, composed from the existing model functions (nothing is re-defined): up to two
+endpoints `c`, `s`, each the glue model of `Model/Tls.lean` (`St`) - a synchronous one is driven by
+`Tls.sendT` / `Tls.receiveT` with any timeout, an asynchronous one by `Tls.enqueue` and driver steps
+`Tls.aQuery` + `Tls.aTask` - over an ABSTRACT engine `E : Engine σ` and an ABSTRACT kernel `W : World ω`.
+(One engine and one world for both endpoints is no restriction: their states are separate, and a sum type with a
+flag in the state gives each side its own behaviour - as `Hs.engine` does with `Hs.client`.)  The kernel is
+wrapped by `obsWorld`, which records what the shim of the harness records: every `poll` with its timeout, its answer
+and the clock when it was issued, and every `send` (the flag set of the library's `send` is `Net.sendNoSignal`,
+extracted from the source on every run). -/
+
+section Model
+variable {σ ω : Type}
+
+/-- one OS call as the shim logs it -/
+inductive OsRec where
+  | wait (t : Int) (ready : Bool) (before : Int)
+  | send
+  deriving DecidableEq, Repr
+
+/-- any world, with a log of its `poll`s and `send`s (newest first) -/
+def obsWorld (W : World ω) : World (ω × List OsRec) where
+  wait x d t := ((W.wait x.1 d t).1, ((W.wait x.1 d t).2, .wait t (W.wait x.1 d t).1 (W.now x.1) :: x.2))
+  send x bs := ((W.send x.1 bs).1, ((W.send x.1 bs).2, .send :: x.2))
+  recv x n := ((W.recv x.1 n).1, ((W.recv x.1 n).2, x.2))
+  now x := W.now x.1
+
+abbrev MSt (σ ω : Type) := St σ (ω × List OsRec)
+
+/-- one endpoint of the model -/
+structure Ep (σ ω : Type) where
+  async : Bool
+  rsz : Nat
+  a : Async := {}
+  st : MSt σ ω
+  /-- everything handed to the application so far -/
+  got : Bytes := []
+  /-- an exception left a call / the disconnect handler ran (what the harness prints as `failed=`) -/
+  failed : Bool := false
+
+structure Sys (σ ω : Type) where
+  c : Option (Ep σ ω) := none
+  s : Option (Ep σ ω) := none
+  plain : Bool := false
+  marker : Bytes := []
+  cpay : Bytes := []
+  spay : Bytes := []
+
+/-- configuration, kernel and engine -/
+structure Env (σ ω : Type) where
+  C : Cfg
+  W : World ω
+  E : Engine σ
+
+def Ep.init (cfg : EpCfg) (e : σ) (w : ω) : Ep σ ω :=
+  { async := cfg.async, rsz := cfg.rsz, st := { g := {}, e := e, w := (w, []) } }
+
+def Sys.ep? (m : Sys σ ω) : Who → Option (Ep σ ω)
+  | .c => m.c
+  | .s => m.s
+  | .other _ => none
+
+def Sys.setEp (m : Sys σ ω) : Who → Ep σ ω → Sys σ ω
+  | .c, e => { m with c := some e }
+  | .s, e => { m with s := some e }
+  | .other _, _ => m
+
+/-- the logs of the call that is about to start are empty (ghost state only) -/
+def fresh (s : MSt σ ω) : MSt σ ω := { s with g := { s.g with engCalls := [] }, w := (s.w.1, []) }
+
+def osObs (who : Who) : OsRec → Obs
+  | .wait t r _ => .poll who t r
+  | .send => .send who sendNoSignal
+
+def callObs (who : Who) (c : EngCall) : Obs := .sslret who c.ans.isDone c.initAfter
+
+/-- what one call shows below (kernel) and beside (engine) the glue.  The two logs are separate in the model, so
+the kernel events are listed first; the clauses on them touch disjoint parts of the observer's state. -/
+def evObs (who : Who) (s : MSt σ ω) : List Obs :=
+  s.w.2.reverse.map (osObs who) ++ s.g.engCalls.reverse.map (callObs who)
+
+def sendRet (who : Who) : Out Nat → Obs
+  | .ok n => .ret who (.n n)
+  | .exn _ => .ret who .threw
+  | .abort m => .abort .crash m
+
+def recvRet (who : Who) : Out Bytes → Obs
+  | .ok [] => .ret who .other
+  | .ok (b :: bs) => .ret who (.n (b :: bs).length)
+  | .exn _ => .ret who .threw
+  | .abort m => .abort .crash m
+
+def isExn {α : Type} : Out α → Bool
+  | .exn _ => true
+  | _ => false
+
+def outBytes : Out Bytes → Bytes
+  | .ok bs => bs
+  | _ => []
+
+/-- `Send(data, T)` of a synchronous endpoint -/
+def epSend (V : Env σ ω) (who : Who) (ep : Ep σ ω) (data : Bytes) (T : Int) : Ep σ ω × List Obs :=
+  let r := sendT V.C (obsWorld V.W) V.E (fresh ep.st) data T
+  ({ ep with st := r.2, failed := ep.failed || isExn r.1 },
+   .api who .send (some T) :: (evObs who r.2 ++ [sendRet who r.1]))
+
+/-- `Receive(T)` of a synchronous endpoint into a buffer of `rsz` bytes -/
+def epRecv (V : Env σ ω) (who : Who) (ep : Ep σ ω) (T : Int) : Ep σ ω × List Obs :=
+  let r := receiveT V.C (obsWorld V.W) V.E (fresh ep.st) ep.rsz T
+  ({ ep with st := r.2, got := ep.got ++ outBytes r.1, failed := ep.failed || isExn r.1 },
+   .api who .recv (some T) :: (evObs who r.2 ++ [recvRet who r.1]))
+
+/-- the driver of an asynchronous endpoint, as the transcript names it -/
+def drv : Who → Who
+  | .c => .other "dc"
+  | .s => .other "ds"
+  | w => w
+
+def stepRet (who : Who) : Out Unit → Obs
+  | .ok _ => .ret (drv who) .other
+  | .exn _ => .ret (drv who) .threw
+  | .abort m => .abort .crash m
+
+/-- one `Driver::Step` that serves this asynchronous endpoint: `DriverQuery`, then `DoOneSocketTask` for what `poll`
+reported (`first`: the socket is the one `QuerySockets` returned - decrypted data is held already) -/
+def epStep (V : Env σ ω) (who : Who) (ep : Ep σ ω) (rev : REvents) (first : Bool) : Ep σ ω × List Obs :=
+  let q := aQuery V.E { a := ep.a, s := fresh ep.st }
+  let r := aTask V.C (obsWorld V.W) V.E ep.rsz q (if first then forcedRev V.E q rev else rev)
+  let newD := (r.2.a.delivered.take (r.2.a.delivered.length - ep.a.delivered.length)).reverse
+  let nd := r.2.a.disconnects - ep.a.disconnects
+  ({ ep with a := r.2.a, st := r.2.s, got := ep.got ++ newD.flatten,
+             failed := ep.failed || isExn r.1 || decide (0 < nd) },
+   .api (drv who) .other none ::
+     (evObs who r.2.s ++ newD.map (fun bs => Obs.rx who bs.length) ++ List.replicate nd (Obs.disc who) ++ [stepRet who r.1]))
+
+/-- a history is a list of these, in any order and of any length -/
+inductive Op where
+  | send (who : Who) (data : Bytes) (T : Int)
+  | recv (who : Who) (T : Int)
+  | enq (who : Who) (buf : Bytes)
+  | step (who : Who) (rev : REvents) (first : Bool)
+  deriving Repr
+
+/-- one operation; an operation the harness would not perform (no such endpoint, wrong API level) does nothing -/
+def sysStep (V : Env σ ω) (m : Sys σ ω) : Op → Sys σ ω × List Obs
+  | .send who data T =>
+    match m.ep? who with
+    | some ep => if ep.async then (m, []) else ((m.setEp who (epSend V who ep data T).1), (epSend V who ep data T).2)
+    | none => (m, [])
+  | .recv who T =>
+    match m.ep? who with
+    | some ep => if ep.async then (m, []) else ((m.setEp who (epRecv V who ep T).1), (epRecv V who ep T).2)
+    | none => (m, [])
+  | .enq who buf =>
+    match m.ep? who with
+    | some ep =>
+      if ep.async then (m.setEp who { ep with a := (enqueue { a := ep.a, s := ep.st } buf).a }, []) else (m, [])
+    | none => (m, [])
+  | .step who rev first =>
+    match m.ep? who with
+    | some ep => if ep.async then ((m.setEp who (epStep V who ep rev first).1), (epStep V who ep rev first).2) else (m, [])
+    | none => (m, [])
+
+def modelOps (V : Env σ ω) (m : Sys σ ω) : List Op → Sys σ ω × List Obs
+  | [] => (m, [])
+  | op :: rest => ((modelOps V (sysStep V m op).1 rest).1, (sysStep V m op).2 ++ (modelOps V (sysStep V m op).1 rest).2)
+
+def epCfg (ep : Ep σ ω) : EpCfg := ⟨ep.async, ep.rsz⟩
+
+def setupObs (m : Sys σ ω) : List Obs :=
+  [.setup (m.c.map epCfg) (m.s.map epCfg) m.plain, .payload m.marker m.cpay m.spay]
+
+def epFinal (V : Env σ ω) (who : Who) (ep : Ep σ ω) : List Obs :=
+  [.wire who ep.st.g.wire, .got who ep.got,
+   .state who { init := some (if V.E.initFinished ep.st.e then 1 else 0), failed := ep.failed,
+                pending := some (if V.E.pending ep.st.e then 1 else 0) }]
+
+def finalObs (V : Env σ ω) (m : Sys σ ω) : List Obs :=
+  (match m.c with | some ep => epFinal V .c ep | none => []) ++ (match m.s with | some ep => epFinal V .s ep | none => [])
+
+/-- the observations of the MODEL for a history -/
+def modelTrace (V : Env σ ω) (m : Sys σ ω) (history : List Op) : List Obs :=
+  setupObs m ++ (modelOps V m history).2 ++ finalObs V (modelOps V m history).1
+
+end Model
+
+/-! ## the proof: `specRun` accepts every trace of the model -/
+
+section Proof
+variable {σ ω : Type}
+
+theorem sendNoSignal_true : sendNoSignal = true := by decide
+
+/-! ### running the predicate over pieces of a trace -/
+
+theorem specRun_append (a : List Obs) : ∀ (s : SpecSt) (b : List Obs),
+    specRun s (a ++ b) = match specRun s a with | .error m => .error m | .ok s' => specRun s' b := by
+  induction a with
+  | nil => intro s b; rfl
+  | cons o rest ih =>
+    intro s b
+    simp only [List.cons_append, specRun]
+    cases specStep s o with
+    | error m => rfl
+    | ok s' => exact ih s' b
+
+theorem setEp_self {sp : SpecSt} {who : Who} {ep : EpSt} (h : sp.ep? who = some ep) : sp.setEp who ep = sp := by
+  cases who <;> simp only [SpecSt.ep?, SpecSt.setEp] at h ⊢
+  · cases sp; simp_all
+  · cases sp; simp_all
+
+theorem ep?_setEp {sp : SpecSt} {who : Who} {ep e : EpSt} (h : sp.ep? who = some ep) : (sp.setEp who e).ep? who = some e := by
+  cases who <;> simp_all [SpecSt.ep?, SpecSt.setEp]
+
+theorem setEp_setEp (sp : SpecSt) (who : Who) (a b : EpSt) : (sp.setEp who a).setEp who b = sp.setEp who b := by
+  cases who <;> rfl
+
+theorem plain_setEp (sp : SpecSt) (who : Who) (a : EpSt) : (sp.setEp who a).plain = sp.plain := by
+  cases who <;> rfl
+
+theorem onEp_some {sp : SpecSt} {who : Who} {ep : EpSt} (h : sp.ep? who = some ep) (f : EpSt → Except String EpSt) :
+    onEp sp who f = match f ep with | .error m => .error m | .ok e => .ok (sp.setEp who e) := by
+  unfold onEp; rw [h]
+
+/-- the condition of `pollClause` -/
+def waitCond (T spent t : Int) : Prop :=
+  if T < 0 then t < 0 else if T = 0 then t = 0 else (0 ≤ t ∧ spent + t ≤ T)
+
+def acc (T spent t : Int) (rd : Bool) : Int := if 0 < T then spent + (if rd then 0 else t) else spent
+
+theorem pollClause_ok (who : Who) (ep : EpSt) (T t : Int) (rd : Bool) (h : waitCond T ep.spent t) :
+    pollClause who ep T t rd = .ok { ep with spent := acc T ep.spent t rd } := by
+  unfold waitCond at h
+  unfold pollClause acc
+  by_cases h1 : T < 0
+  · rw [if_pos h1] at h
+    have a : ¬ t ≥ 0 := by omega
+    have b : ¬ 0 < T := by omega
+    simp only [h1, a, b, if_true, if_false]
+  · rw [if_neg h1] at h
+    by_cases h2 : T = 0
+    · rw [if_pos h2] at h
+      subst h2
+      subst h
+      simp
+    · rw [if_neg h2] at h
+      have a : ¬ t < 0 := by omega
+      have b : 0 < T := by omega
+      have c : ¬ ep.spent + t > T := by omega
+      simp only [h1, h2, a, b, c, if_true, if_false]
+
+/-- the waits of a call, oldest first, satisfy the clause from `spent` on -/
+def okO (T : Int) : Int → List OsRec → Prop
+  | _, [] => True
+  | sp, .send :: r => okO T sp r
+  | sp, .wait t rd _ :: r => waitCond T sp t ∧ okO T (acc T sp t rd) r
+
+theorem run_os (who : Who) (T : Int) : ∀ (l : List OsRec) (sp : SpecSt) (ep : EpSt) (tail : List Obs),
+    sp.ep? who = some ep → ep.callT = some T → okO T ep.spent l →
+    ∃ x, specRun sp (l.map (osObs who) ++ tail) = specRun (sp.setEp who { ep with spent := x }) tail := by
+  intro l
+  induction l with
+  | nil => intro sp ep tail h _ _; exact ⟨ep.spent, by rw [setEp_self h]; rfl⟩
+  | cons o rest ih =>
+    intro sp ep tail h hT hok
+    cases o with
+    | send =>
+      obtain ⟨x, hx⟩ := ih sp ep tail h hT hok
+      refine ⟨x, ?_⟩
+      simp only [List.map_cons, List.cons_append, specRun, osObs, specStep, sendNoSignal_true, if_true]
+      exact hx
+    | wait t rd b =>
+      obtain ⟨hc, hrest⟩ := hok
+      have hstep : specStep sp (.poll who t rd) = .ok (sp.setEp who { ep with spent := acc T ep.spent t rd }) := by
+        have hp := pollClause_ok who ep T t rd hc
+        simp only [specStep, onEp, h, hT, hp]
+      obtain ⟨x, hx⟩ := ih (sp.setEp who { ep with spent := acc T ep.spent t rd }) { ep with spent := acc T ep.spent t rd } tail
+        (ep?_setEp h) hT hrest
+      refine ⟨x, ?_⟩
+      simp only [List.map_cons, List.cons_append, specRun, osObs, hstep]
+      rw [hx, setEp_setEp]
+
+/-- outside a synchronous call (`callT = none`) the kernel events pass -/
+theorem run_os_idle (who : Who) : ∀ (l : List OsRec) (sp : SpecSt) (tail : List Obs),
+    (∀ ep, sp.ep? who = some ep → ep.callT = none) →
+    specRun sp (l.map (osObs who) ++ tail) = specRun sp tail := by
+  intro l
+  induction l with
+  | nil => intro sp tail _; rfl
+  | cons o rest ih =>
+    intro sp tail h
+    cases o with
+    | send =>
+      simp only [List.map_cons, List.cons_append, specRun, osObs, specStep, sendNoSignal_true, if_true]
+      exact ih sp tail h
+    | wait t rd b =>
+      have hstep : specStep sp (.poll who t rd) = .ok sp := by
+        simp only [specStep, onEp]
+        cases he : sp.ep? who with
+        | none => rfl
+        | some ep => simp only [h ep he, setEp_self he]
+      simp only [List.map_cons, List.cons_append, specRun, osObs, hstep]
+      exact ih sp tail h
+
+/-- `lastDoneInit` after the engine answers `l` (oldest first) -/
+def lastDI (d : Bool) : List EngCall → Bool
+  | [] => d
+  | c :: r => lastDI (c.ans.isDone && c.initAfter) r
+
+theorem lastDI_snoc (d : Bool) (l : List EngCall) (c : EngCall) : lastDI d (l ++ [c]) = (c.ans.isDone && c.initAfter) := by
+  induction l generalizing d with
+  | nil => rfl
+  | cons x r ih => exact ih _
+
+theorem run_calls (who : Who) : ∀ (l : List EngCall) (sp : SpecSt) (ep : EpSt) (tail : List Obs),
+    sp.ep? who = some ep →
+    specRun sp (l.map (callObs who) ++ tail) = specRun (sp.setEp who { ep with lastDoneInit := lastDI ep.lastDoneInit l }) tail := by
+  intro l
+  induction l with
+  | nil => intro sp ep tail h; rw [show ({ ep with lastDoneInit := lastDI ep.lastDoneInit [] } : EpSt) = ep from rfl, setEp_self h]; rfl
+  | cons c rest ih =>
+    intro sp ep tail h
+    have hstep : specStep sp (callObs who c) = .ok (sp.setEp who { ep with lastDoneInit := c.ans.isDone && c.initAfter }) := by
+      simp only [callObs, specStep]
+      rw [onEp_some h]
+    simp only [List.map_cons, List.cons_append, specRun, hstep]
+    rw [ih _ { ep with lastDoneInit := c.ans.isDone && c.initAfter } tail (ep?_setEp h), setEp_setEp]
+    rfl
+
+/-! ### from the newest-first log of the model to the oldest-first run of the predicate -/
+
+/-- what the timed-out waits of a log (any order) add up to -/
+def spentOf : List OsRec → Int
+  | [] => 0
+  | .send :: r => spentOf r
+  | .wait t rd _ :: r => spentOf r + (if rd then 0 else t)
+
+/-- newest first: every wait satisfies the clause with what the OLDER waits consumed -/
+def okN (T : Int) : List OsRec → Prop
+  | [] => True
+  | .send :: r => okN T r
+  | .wait t _ _ :: r => waitCond T (if 0 < T then spentOf r else 0) t ∧ okN T r
+
+def accL (T : Int) : Int → List OsRec → Int
+  | sp, [] => sp
+  | sp, .send :: r => accL T sp r
+  | sp, .wait t rd _ :: r => accL T (acc T sp t rd) r
+
+theorem accL_append (T : Int) (a b : List OsRec) : ∀ sp, accL T sp (a ++ b) = accL T (accL T sp a) b := by
+  induction a with
+  | nil => intro sp; rfl
+  | cons x r ih => intro sp; cases x <;> simp only [List.cons_append, accL, ih]
+
+theorem accL_rev (T : Int) (l : List OsRec) : accL T 0 l.reverse = if 0 < T then spentOf l else 0 := by
+  induction l with
+  | nil => simp [accL, spentOf]
+  | cons x r ih =>
+    rw [List.reverse_cons, accL_append, ih]
+    cases x with
+    | send => simp only [accL, spentOf]
+    | wait t rd b =>
+      simp only [accL, spentOf, acc]
+      by_cases h : 0 < T <;> simp [h]
+
+theorem okO_snoc (T : Int) (x : OsRec) : ∀ (l : List OsRec) (sp : Int), okO T sp l → okO T (accL T sp l) [x] → okO T sp (l ++ [x]) := by
+  intro l
+  induction l with
+  | nil => intro sp _ h; exact h
+  | cons y r ih =>
+    intro sp h1 h2
+    cases y with
+    | send => exact ih sp h1 h2
+    | wait t rd b => exact ⟨h1.1, ih _ h1.2 h2⟩
+
+theorem okO_of_okN (T : Int) (l : List OsRec) (h : okN T l) : okO T 0 l.reverse := by
+  induction l with
+  | nil => trivial
+  | cons x r ih =>
+    rw [List.reverse_cons]
+    cases x with
+    | send => exact okO_snoc T _ _ _ (ih h) trivial
+    | wait t rd b =>
+      refine okO_snoc T _ _ _ (ih h.2) ?_
+      rw [accL_rev]
+      exact ⟨h.1, trivial⟩
+
+/-! ### the kernel log and the wait log of `TlsLog` move in step; the virtual clock -/
+
+/-- A-CLOCK of `Props/C18.lean` (`ClockOk`) and: a wait that times out has waited for its whole timeout (under the
+virtual clock of the harness: exactly that long; the predicate's notion of "consumed" is this) -/
+structure VClock (W : World ω) : Prop where
+  ok : ClockOk W
+  full : ∀ w d t, (W.wait w d t).1 = false → W.now w + t ≤ W.now (W.wait w d t).2
+
+theorem VClock.obs {W : World ω} (h : VClock W) : ClockOk (obsWorld W) where
+  wait_mono := fun x d t => h.ok.wait_mono x.1 d t
+  wait_le := fun x d t ht => h.ok.wait_le x.1 d t ht
+  send_now := fun x bs => h.ok.send_now x.1 bs
+  recv_now := fun x n => h.ok.recv_now x.1 n
+
+def waitPairs : List OsRec → List (Int × Int)
+  | [] => []
+  | .send :: r => waitPairs r
+  | .wait t _ b :: r => (t, b) :: waitPairs r
+
+/-- every wait was issued no earlier than entry + what the older waits consumed -/
+def AllLB (c0 : Int) : List OsRec → Prop
+  | [] => True
+  | .send :: r => AllLB c0 r
+  | .wait _ _ b :: r => c0 + spentOf r ≤ b ∧ AllLB c0 r
+
+def LInv (W : World ω) (c0 : Int) (x : (ω × List OsRec) × List WaitRec) : Prop :=
+  x.2.map (fun r => (r.timeout, r.before)) = waitPairs x.1.2 ∧ AllLB c0 x.1.2 ∧ c0 + spentOf x.1.2 ≤ W.now x.1.1
+
+theorem lInv_world {W : World ω} (hW : VClock W) (c0 : Int) : WorldInv (logWorld (obsWorld W)) (LInv W c0) where
+  wait := by
+    intro x d t ⟨h1, h2, h3⟩
+    refine ⟨?_, ⟨h3, h2⟩, ?_⟩
+    · show (t, W.now x.1.1) :: x.2.map (fun r => (r.timeout, r.before)) = (t, W.now x.1.1) :: waitPairs x.1.2
+      rw [h1]
+    · show c0 + (spentOf x.1.2 + (if (W.wait x.1.1 d t).1 then 0 else t)) ≤ W.now (W.wait x.1.1 d t).2
+      have hm := hW.ok.wait_mono x.1.1 d t
+      cases hr : (W.wait x.1.1 d t).1 with
+      | true => simp only [if_true]; omega
+      | false => have := hW.full x.1.1 d t hr; simp only [Bool.false_eq_true, if_false]; omega
+  send := by
+    intro x bs ⟨h1, h2, h3⟩
+    refine ⟨h1, h2, ?_⟩
+    show c0 + spentOf x.1.2 ≤ W.now (W.send x.1.1 bs).2
+    rw [hW.ok.send_now]; exact h3
+  recv := by
+    intro x n ⟨h1, h2, h3⟩
+    refine ⟨h1, h2, ?_⟩
+    show c0 + spentOf x.1.2 ≤ W.now (W.recv x.1.1 n).2
+    rw [hW.ok.recv_now]; exact h3
+
+/-- a predicate on the world that every OS call keeps is a frame predicate of the glue -/
+theorem frame_of_worldInv {W : World ω} {I : ω → Prop} (V : WorldInv W I) : Frame W (fun s : St σ ω => I s.w) where
+  core := by intro s s' h hc; rw [hc.1]; exact h
+  wait := by intro s d h; exact V.wait s.w d _ h
+  bioRead := by
+    intro s n h
+    obtain ⟨_, _, _, _, _, _, _, cw⟩ := bioRead_core (W := W) s n
+    rcases cw with cw | cw
+    · rw [cw]; exact V.recvNow s.w n h
+    · rw [cw]; exact V.receive s.w n _ h
+  bioWrite := by
+    intro s bs h
+    unfold Tls.bioWrite
+    have nw : ∀ (s0 : St σ ω) (r : SendRes ω) (rem : Int), I r.w → I (noteWrite s0 bs r rem).2.w := by
+      intro s0 r rem hr; unfold noteWrite; split <;> exact hr
+    split
+    · exact nw _ _ _ (V.sendNow _ bs h)
+    · split
+      · exact nw _ _ _ (V.sendAll _ bs 0 h)
+      · split
+        · exact nw _ _ _ (V.sendTry _ bs h)
+        · exact nw _ _ _ (V.sendSome _ bs _ _ 0 h)
+
+theorem okN_of (T c0 : Int) : ∀ (l : List OsRec), (0 < T → AllLB c0 l) →
+    (∀ p ∈ waitPairs l, (T < 0 → p.1 < 0) ∧ (T = 0 → p.1 = 0) ∧ (0 < T → 0 ≤ p.1 ∧ p.1 ≤ T - (p.2 - c0))) → okN T l := by
+  intro l
+  induction l with
+  | nil => intro _ _; trivial
+  | cons x r ih =>
+    intro hlb hp
+    cases x with
+    | send => exact ih hlb hp
+    | wait t rd b =>
+      have hr := ih (fun h => (hlb h).2) (fun p hm => hp p (List.mem_cons_of_mem _ hm))
+      refine ⟨?_, hr⟩
+      obtain ⟨p1, p2, p3⟩ := hp (t, b) (List.mem_cons_self ..)
+      unfold waitCond
+      by_cases h1 : T < 0
+      · rw [if_pos h1]; exact p1 h1
+      · rw [if_neg h1]
+        by_cases h2 : T = 0
+        · rw [if_pos h2]; exact p2 h2
+        · have hT : 0 < T := by omega
+          rw [if_neg h2, if_pos hT]
+          have := (hlb hT).1
+          have := p3 hT
+          simp only at *
+          omega
+
+/-- the three budget theorems of `Props/C18.lean`, read off the kernel log -/
+theorem polls_core {W : World ω} (c0 T : Int) (x : (ω × List OsRec) × List WaitRec) (hI : LInv W c0 x)
+    (hb : ∀ r ∈ x.2, (T < 0 → r.timeout < 0) ∧ (T = 0 → r.timeout = 0) ∧
+      (0 < T → 0 ≤ r.timeout ∧ r.timeout ≤ T - (r.before - c0))) : okN T x.1.2 := by
+  obtain ⟨h1, h2, _⟩ := hI
+  refine okN_of T c0 _ (fun _ => h2) ?_
+  intro p hp
+  rw [← h1] at hp
+  obtain ⟨r, hr, rfl⟩ := List.mem_map.mp hp
+  exact hb r hr
+
+end Proof
+
 end SockModel.Tls.Spec
